@@ -10,7 +10,7 @@ class StepAuthorization(PipelineBase):
         PipelineBase.__init__(self,**kw)
         self.nfun=nfun; self.nsig=nsig; self.unknown_pubkey=unknown_pubkey; self.two_steps=two_steps or same_name; self.same_name=same_name
         if same_name: self.name='C02.step_authorization_duplicate_step_names'
-        self.bounds={'steps':('2 with the same name (sharing their link files)' if same_name else (2 if two_steps else 1)),'functionary_pool':nfun,'threshold':'any u32 per step','layout_key_table':'any subset of the pool',
+        self.bounds={'steps':('2 with the same name (sharing their link files), adjacent or separated by a third step' if same_name else (2 if two_steps else 1)),'functionary_pool':nfun,'threshold':'any u32 per step','layout_key_table':'any subset of the pool',
                      'step_pubkeys':'any subset of the pool'+(' + an id absent from the table' if unknown_pubkey else ''),
                      'files_per_step':'per pool key: absent or one link filed under that key-id prefix','signatures_per_link':'1..%d, each labelled with any pool key, free made_by/intact/over'%nsig,
                      'hash_map_iteration':'every permutation','owner_signature':'valid (C01 varies it)','clock':'unexpired (C06 varies it)'}
@@ -37,6 +37,9 @@ class StepAuthorization(PipelineBase):
                 fd=FileD(sname,k,BlockD('link',LinkD(sname,{'a':1},{'b':2}),sigs))
                 files[k]=fd; dirs[()].append(fd)
             steps.append(StepD(sname,thr,pub)); info.append((thr,pub,files))
+        if self.same_name and run.pick(2,'separated'):
+            # the two namesakes need not be neighbours in the list
+            steps=[steps[0],StepD('mid',Int(32,False,0),[]),steps[1]]
         keys=[k for k in range(nfun) if run.pick(2,'key%d'%k)]
         ld=LayoutD(keys,steps)
         lb=BlockD('layout',ld,[SigD(OWNER,OWNER)])
